@@ -59,7 +59,7 @@ def run(ctx):
                               "cost-unit commit / balance deduction", min_targets=2)
             elif helpers:
                 for callee, (hbb, ht, hb) in sorted(helpers.items()):
-                    hs = callee.rsplit("::", 1)[1]
+                    hs = callee.rsplit("::", 1)[-1]
                     check_guarded(ctx, f"consume_{kind}_internal|commit", b, commit, [lim, G_try(re.escape(callee) + "$")],
                                   f"cost-unit commit (deduction in helper {hs})", min_targets=1)
                     check_guarded(ctx, f"consume_{kind}_internal|helper-call-after-limit-check", b, [hbb], [lim], f"call of {hs}")
@@ -79,7 +79,7 @@ def run(ctx):
                 for bb, t in x.calls(re.escape(SL) + r"::\w*cost_unit_price$"):
                     acc = t["f"]
                     got = {fr.rsplit(".", 1)[1] for fr in (F.fns[acc].fr if acc in F.fns else []) if fr.endswith("cost_unit_price")}
-                    prices |= {g + " (via " + acc.rsplit("::", 1)[1] + "())" for g in got} or {acc.rsplit("::", 1)[1] + "()"}
+                    prices |= {g + " (via " + acc.rsplit("::", 1)[-1] + "())" for g in got} or {acc.rsplit("::", 1)[-1] + "()"}
             want = {f"effective_{kind}_cost_unit_price"}
             ctx.ob(f"consume_{kind}_internal|priced-with-the-effective-{kind}-price-only", prices == want,
                    f"unit prices consulted when deducting {kind} cost units: {sorted(prices)} (finalize() and the commit-time assertion charge the tip on these units, "
